@@ -377,6 +377,45 @@ def r4_render_index(ctx):
                            'raises ValueError while the report is rendered', anchor=REPR)
     rep.floor('C09.R4', 'text-derived indexes into failed_part lists', n_found, 1)
     rep.floor('C09.R4', 'int() parses of traceback text', n_int, 1)
+    # -- (c) fields that are None until the first part is compiled / a failure is recorded
+    init = ctx.prog.find_method(top.cls, '__init__')
+    nullable = set()
+    for sub in ast.walk(init.node):
+        if isinstance(sub, ast.Assign) and isinstance(sub.value, ast.Constant) and sub.value.value is None:
+            for t in sub.targets:
+                fn = field_name(t, 'self')
+                if fn:
+                    nullable.add(fn.split('.', 1)[1])
+    n_null = 0
+    for f in funcs:
+        g = ctx.cfg(f)
+        dom = ctx.dom(g, g.entry)
+        recv = 'self'
+        for n in g.nodes:
+            if n.kind not in ('stmt', 'test') or n.dup or isinstance(n.ast, (ast.FunctionDef, ast.AsyncFunctionDef, ast.ClassDef)):
+                continue
+            for sub in ast.walk(n.ast):
+                if isinstance(sub, ast.Compare) and len(sub.ops) == 1 and isinstance(sub.ops[0], (ast.In, ast.NotIn)):
+                    fn = field_name(sub.left, recv)
+                    if fn and fn.split('.', 1)[1] in nullable and fn.count('.') == 1:
+                        n_null += 1
+                        fld = fn.split('.', 1)[1]
+                        # guarded by `<field> is not None` on the path, or by the left conjunct of the same `and`
+                        guarded = any(isinstance(fa.expr, ast.Compare) and field_name(fa.expr.left, recv) == fn and isinstance(fa.expr.ops[0], ast.Is) and fa.polarity is False for fa in graph.guard_facts(dom, n))
+                        par = getattr(sub, '_parent', None)
+                        if isinstance(par, ast.BoolOp) and isinstance(par.op, ast.And):
+                            idx = [i for i, v in enumerate(par.values) if v is sub][0]
+                            for v in par.values[:idx]:
+                                for fa in graph.facts_of(v, True):
+                                    if isinstance(fa.expr, ast.Compare) and field_name(fa.expr.left, recv) == fn and isinstance(fa.expr.ops[0], ast.Is) and fa.polarity is False:
+                                        guarded = True
+                                    if field_name(fa.expr, recv) == fn and fa.polarity is True:
+                                        guarded = True
+                        rep.ob('C09.R4', ctx.loc(f, sub), ctx.src(sub), guarded,
+                               'membership test on a field that may still be None is preceded by a None test' if guarded else
+                               'self.%s is None until the first part is compiled (a directive or import failure is recorded before that): `None in <str>` raises TypeError while the report is rendered' % fld,
+                               anchor=REPR)
+    rep.note('nullable_fields_tested_in_render', n_null)
 
 
 def _failed_part_list(rd, n, base, depth=2):
@@ -573,6 +612,7 @@ VARIANTS = [
          (DE, "                            if 0 < tb_lineno <= len(orig_lines):\n", "                            if 0 < tb_lineno:\n")),
     fire('revert-fix-F4-int-parse', 'C09.R4',
          (DE, " and is_frame_line:\n", ":\n")),
+    fire('partfilename-none-guard-dropped', 'C09.R4', (DE, "if self._partfilename is not None and self._partfilename in line and is_frame_line:", "if is_frame_line and self._partfilename in line:")),
     silent('bounds-test-other-form',
            (DE, "                            if 0 < tb_lineno <= len(orig_lines):\n", "                            if tb_lineno >= 1 and tb_lineno - 1 < len(orig_lines):\n")),
     silent('index-in-try-except',
